@@ -272,10 +272,30 @@ class Row(PyModel):
 class RowType(PyModel):
     """pandas.DataFrame (the class) as used by to_dfs: one row from a dict of one-element lists"""
     def __call__(self, d=None, **k):
+        if isinstance(d, list) and all(isinstance(x, dict) for x in d):
+            return self.from_records(d)
         return Row(d)
 
     def from_dict(self, d, **k):
         return Row(d)
+
+    def from_records(self, records, **k):
+        """one frame from a list of dicts.  pandas >= 3 infers the dtype per COLUMN: a column holding Python strings and None becomes
+        a `str` column whose missing entries are NaN (a frame made from ONE record keeps None in an object column)."""
+        from ..pdmodel import NaN
+        records = [dict(r) for r in records]
+        cols = []
+        for r in records:
+            for c in r:
+                if c not in cols:
+                    cols.append(c)
+        for c in cols:
+            vals = [r.get(c) for r in records]
+            if any(isinstance(v, str) for v in vals) and any(v is None for v in vals) and all(v is None or isinstance(v, str) for v in vals):
+                for r in records:
+                    if r.get(c) is None:
+                        r[c] = NaN
+        return Table([Row({c: [r.get(c, NaN)] for c in cols}) for r in records])
 
 
 class Table(PyModel):
